@@ -5,14 +5,14 @@
 Require Import SQV.Model.Str SQV.Model.Escape SQV.Spec.EngLex.
 
 Inductive etok :=
-| TId (s : str)            (* quoted identifier, decoded *)
-| TStr (s : str)           (* string literal, decoded *)
-| TBytes (bs : list N)     (* binary literal, decoded *)
-| TWord (s : str)          (* bare word / keyword, ASCII upper-cased *)
-| TNum (s : str)           (* numeric literal text *)
-| TParam (n : N)           (* placeholder: 0 = positional ?, n = $n *)
-| TOp (s : str)            (* operator: maximal run of operator characters *)
-| TPunct (c : N).          (* ( ) , ; . [ ] : *)
+| TkId (s : str)            (* quoted identifier, decoded *)
+| TkStr (s : str)           (* string literal, decoded *)
+| TkBytes (bs : list N)     (* binary literal, decoded *)
+| TkWord (s : str)          (* bare word / keyword, ASCII upper-cased *)
+| TkNum (s : str)           (* numeric literal text *)
+| TkParam (n : N)           (* placeholder: 0 = positional ?, n = $n *)
+| TkOp (s : str)            (* operator: maximal run of operator characters *)
+| TkPunct (c : N).          (* ( ) , ; . [ ] : *)
 
 Definition quote_of (b : backend) : N := match b with MySQL => 96 | _ => 34 end.
 
@@ -86,45 +86,45 @@ Definition next_etok (b : backend) (s : str) : option (etok * str) :=
   | [] => None
   | c :: t =>
       if c =? quote_of b then
-        match lex_quoted_with c s with Some (n, r) => Some (TId n, r) | None => None end
+        match lex_quoted_with c s with Some (n, r) => Some (TkId n, r) | None => None end
       else if c =? 39 then
         match (match b with MySQL => mysql_lex_string | Postgres => pg_lex_string
                           | SQLite => sqlite_lex_string end) s with
-        | Some (v, r) => Some (TStr v, r) | None => None end
+        | Some (v, r) => Some (TkStr v, r) | None => None end
       else if c =? 34 then
         (* only reached for MySQL (for the others 34 is the identifier quote) *)
-        match mysql_lex_body_q 34 false t with Some (v, r) => Some (TStr v, r) | None => None end
+        match mysql_lex_body_q 34 false t with Some (v, r) => Some (TkStr v, r) | None => None end
       else if c =? 96 then None   (* backtick outside MySQL *)
       else if ((c =? 120) || (c =? 88)) && (match t with q :: _ => q =? 39 | [] => false end) then
         match b with
         | Postgres => None
-        | _ => match lex_hex_literal s with Some (bs, r) => Some (TBytes bs, r) | None => None end
+        | _ => match lex_hex_literal s with Some (bs, r) => Some (TkBytes bs, r) | None => None end
         end
       else if ((c =? 69) || (c =? 101)) && (match t with q :: _ => q =? 39 | [] => false end) then
         match b with
-        | Postgres => match pg_lex_string s with Some (v, r) => Some (TStr v, r) | None => None end
+        | Postgres => match pg_lex_string s with Some (v, r) => Some (TkStr v, r) | None => None end
         | _ => None
         end
       else if is_word_start c then
-        let (w, r) := span is_word_char s in Some (TWord (map ascii_upper w), r)
+        let (w, r) := span is_word_char s in Some (TkWord (map ascii_upper w), r)
       else if is_digit c || ((c =? 46) && (match t with d :: _ => is_digit d | [] => false end)) then
         let (n, r) := lex_number s in
-        if starts_with_word_char r then None else Some (TNum n, r)
+        if starts_with_word_char r then None else Some (TkNum n, r)
       else if c =? 63 then
-        match b with Postgres => None | _ => Some (TParam 0, t) end
+        match b with Postgres => None | _ => Some (TkParam 0, t) end
       else if c =? 36 then
         match b with
         | Postgres =>
             let (ds, r) := span is_digit t in
             if is_nil ds then None else
             if starts_with_word_char r then None else
-            Some (TParam (fold_left (fun a d => a * 10 + (d - 48)) ds 0), r)
+            Some (TkParam (fold_left (fun a d => a * 10 + (d - 48)) ds 0), r)
         | _ => None
         end
       else if is_op_char c then
         let (o, r) := span is_op_char s in
-        if has_comment_start o then None else Some (TOp o, r)
-      else if is_punct c then Some (TPunct c, t)
+        if has_comment_start o then None else Some (TkOp o, r)
+      else if is_punct c then Some (TkPunct c, t)
       else None
   end.
 
@@ -152,4 +152,4 @@ Definition eng_tokens (b : backend) (s : str) : option (list etok) :=
 
 (* the decoded quoted identifiers of a statement, in reading order *)
 Definition idents_of (ts : list etok) : list str :=
-  flat_map (fun t => match t with TId n => [n] | _ => [] end) ts.
+  flat_map (fun t => match t with TkId n => [n] | _ => [] end) ts.
